@@ -1,5 +1,6 @@
 import SF.Props.C04
 import SF.Lemmas.Cum
+import SF.Lemmas.Linear
 /-
   C10 — Linear views obey superposition.
   For streams `x`, `y` of equal length and scalars `a`, `b` (any sign, including 0): view(a·x + b·y) = a·view(x) + b·view(y)
@@ -102,5 +103,39 @@ theorem sma_dc (N : Nat) (hN : 0 < N) (c : α) (L : Nat) (hL : N ≤ L) : Spec.s
   C04.sma_const N hN c L hL
 theorem ema_dc (N : Nat) (hN : 0 < N) (alpha c : α) (L : Nat) (hL : N ≤ L) :
     Spec.ema N alpha (List.replicate L c) = some c := C04.ema_const N hN alpha c L hL
+
+/-! ### recursive members: SuperSmoother, LaguerreFilter, RoofingFilter -/
+section recursive
+variable [Transc α]
+/-- SuperSmoother obeys superposition (any a, b incl. 0 and negatives), every N, every pair of equally long streams -/
+theorem superSmoother_linear (N : Nat) (a b : α) (xs ys : List α) (h : xs.length = ys.length) :
+    Spec.superSmoother N (Linear.lin a b xs ys) = Linear.olin a b (Spec.superSmoother N xs) (Spec.superSmoother N ys) :=
+  Linear.superSmoother_linear N a b xs ys h
+
+/-- LaguerreFilter obeys superposition for every gamma -/
+theorem laguerre_linear (g a b : α) (xs ys : List α) (h : xs.length = ys.length) :
+    Spec.laguerreFilter g (Linear.lin a b xs ys) = Linear.olin a b (Spec.laguerreFilter g xs) (Spec.laguerreFilter g ys) :=
+  Linear.laguerre_linear g a b xs ys h
+
+/-- RoofingFilter obeys superposition -/
+theorem roofing_linear (N M' : Nat) (a b : α) (xs ys : List α) (h : xs.length = ys.length) :
+    Spec.roofing N M' (Linear.lin a b xs ys) = Linear.olin a b (Spec.roofing N M' xs) (Spec.roofing N M' ys) :=
+  Linear.roofing_linear N M' a b xs ys h
+
+/-- and these ARE what the state machines report (C11): e.g. the SuperSmoother view of a·x + b·y -/
+theorem superSmoother_view_linear (N : Nat) (hN : 0 < N) (a b : α) (xs ys : List α) (h : xs.length = ys.length) :
+    (ssCore (α := α) N).outAfter (Linear.lin a b xs ys)
+      = .ok (Linear.olin a b (Spec.superSmoother N xs) (Spec.superSmoother N ys)) := by
+  rw [SS.outAfter_eq N hN, Linear.superSmoother_linear N a b xs ys h]
+
+theorem laguerre_view_linear (g a b : α) (xs ys : List α) (h : xs.length = ys.length) :
+    (lagfCore (α := α) g).outAfter (Linear.lin a b xs ys)
+      = .ok (Linear.olin a b (Spec.laguerreFilter g xs) (Spec.laguerreFilter g ys)) := by
+  rw [Lagf.outAfter_eq, Linear.laguerre_linear g a b xs ys h]
+
+/-- LaguerreFilter maps a constant stream to the same constant from its first output -/
+theorem laguerre_dc (g c : α) (n : Nat) : Spec.laguerreFilter g (List.replicate (n + 1) c) = some c :=
+  Linear.laguerre_const g c n
+end recursive
 
 end SF.C10
